@@ -33,11 +33,12 @@ def execute(job):
         k = job['kind']
         if k == 'mutator':
             r = harness.run_mutator_job(prog, job)
-        elif k in ('c17_mut', 'c17_iter', 'c17_id', 'c17_pretty', 'c17_display'):
+        elif k in ('c17_mut', 'c17_iter', 'c17_id', 'c17_pretty', 'c17_display', 'c17_par_iter'):
             import c17
             if k == 'c17_id': r = c17.run_identity_job(MIRTEXT, job)
             elif k == 'c17_pretty': r = c17.run_diff_pretty(PROGS, job)
             elif k == 'c17_display': r = c17.run_diff_display(PROGS, job)
+            elif k == 'c17_par_iter': r = c17.run_par_iter_job(PROGS, job)
             else: r = (c17.run_diff_mutator if k == 'c17_mut' else c17.run_diff_iter)(PROGS, job)
         elif k in ('iter', 'pair', 'deiter'):
             import iters
@@ -359,4 +360,13 @@ def main():
 
 
 if __name__ == '__main__':
-    main()
+    try:
+        main()
+    except SystemExit:
+        raise
+    except BaseException as e:
+        # an internal failure of the machinery (MIR the parser does not know, a build problem, ...) decides nothing: exit 2, never 1
+        import traceback
+        traceback.print_exc()
+        print('INCONCLUSIVE: internal error before a verdict: %s: %s' % (type(e).__name__, str(e)[:300]))
+        sys.exit(2)
